@@ -541,6 +541,29 @@ Definition eng_stream (inp impl : node) : verdict :=
   | _ => bad
   end.
 
+(* ---------------- engine: meta (C19) ---------------- *)
+Definition eng_meta (inp impl : node) : verdict :=
+  match inp with
+  | List [Str op; Int n; Str keyclass] =>
+      (* the wrapper's contract with an ideal secretbox: stored value = 24-byte nonce ++ (plaintext + 16-byte tag) *)
+      let m := if str_eqb keyclass (lit "good")
+               then List [Bool true; Int (n + 40)%Z; Bool true; Bool true; Bool true; Bool true; Bool true; Bool true]
+               else List [Bool false; Int 0; Bool true] in
+      {| model_obs := m; violated := if node_eqb impl m then [] else [lit "C19"] |}
+  | _ => bad
+  end.
+
+(* ---------------- engine: conc (C20) ---------------- *)
+Definition eng_conc (inp impl : node) : verdict :=
+  match inp with
+  | List [Str kind; _] =>
+      (* by readonly_no_writes / results_independent_of_schedule: state unchanged, results repeatable
+         and equal to the sequential ones *)
+      let m := if str_eqb kind (lit "alone") then List [Bool true; Bool true] else List [Bool true; List []] in
+      {| model_obs := m; violated := if node_eqb impl m then [] else [lit "C20"] |}
+  | _ => bad
+  end.
+
 (* ---------------- engine: chain (C01-C05) ---------------- *)
 
 Definition dlg_of_node (n : node) : option dlg :=
@@ -644,7 +667,7 @@ Definition engines : list (str * (node -> node -> verdict)) :=
     (lit "selector", eng_selector);
     (lit "policy", eng_policy);
     (lit "chain", eng_chain);
-    (lit "selparse", eng_selparse); (lit "container", eng_container); (lit "cid", eng_cid); (lit "stream", eng_stream); (lit "token", eng_token); (lit "did", eng_did); (lit "policyipld", eng_policyipld) ].
+    (lit "selparse", eng_selparse); (lit "conc", eng_conc); (lit "meta", eng_meta); (lit "container", eng_container); (lit "cid", eng_cid); (lit "stream", eng_stream); (lit "token", eng_token); (lit "did", eng_did); (lit "policyipld", eng_policyipld) ].
 
 Fixpoint find_engine (e : str) (l : list (str * (node -> node -> verdict))) : option (node -> node -> verdict) :=
   match l with
